@@ -144,6 +144,16 @@ for _k in list(NOT_YET):
     if _k in CHECKS:
         del NOT_YET[_k]
 
+_LOCK = (" The same exact model also runs in lock-step inside run_simulator under the shipped schedulers (sysmodel family)"
+         " and, where listed, under a seeded chaos custom scheduler registered through the public decorators.")
+for _k in ("C03", "C04", "C05", "C09", "C10"):
+    CHECKS[_k]["text"] += _LOCK
+CHECKS["C01"]["text"] += " A chaos custom scheduler inside run_simulator adds arbitrary admissible packings."
+CHECKS["C02"]["text"] += " A chaos custom scheduler inside run_simulator adds arbitrary admissible packings."
+CHECKS["C06"]["text"] += " Includes the uncontended clause (one chain, ample resources, all schedulers) and runs under a chaos custom scheduler."
+CHECKS["C12"]["text"] += " A dedicated pre-emption workload family produces thousands of suspensions per run, incl. one-tick write-outs and several finishing in one tick."
+CHECKS["C14"]["text"] += " A behavioural twin (same workload simulated directly and through the written file) ties the round trip to simulated behaviour."
+
 
 def main():
     checks = []
